@@ -24,6 +24,7 @@ PROGRAMS = {
     'printing_loop': "while True:\n    print('a')\n",
     'swallowing_loop': "while True:\n    try:\n        while True:\n            pass\n    except BaseException:\n        pass\n",
     'blocked_on_lock': "import threading\nl = threading.Lock()\nl.acquire()\nl.acquire()\n",
+    'exit_code_in_finally': "try:\n    while True:\n        pass\nfinally:\n    raise SystemExit(1)\n",
     'recursive_calls': "def f(n):\n    return 0 if n == 0 else 1 + f(n - 1)\nwhile True:\n    f(50)\n",
 }
 # programs that can never see the injected SystemExit: the worker thread stays alive for ever
@@ -198,7 +199,7 @@ def bounded(arg):
                 failures.append({'id': what, 'canon': '%s under %s in %s' % (what, schedule, program),
                                  'detail': '%s | program %s, ordering %s' % (detail, program, schedule)})
     return {'name': 'B-timeout-schedules', 'bound': '%d programs (busy loop, printing loop, loop swallowing BaseException, blocked on a '
-            'lock, deep recursion) x %d forced orderings of the waiting thread and the abandoned worker at the hook points '
+            'lock, cleanup that turns the interruption into exit(1), deep recursion) x %d forced orderings of the waiting thread and the abandoned worker at the hook points '
             '(natural, W<G, G<W<N, G<N<W, G<N|W), limit %.1f s, %d repetitions; real threads' % (
                 len(PROGRAMS), len(SCHEDULES), LIMIT, repeats),
             'evaluations': evaluations, 'distinct_nontrivial': len(distinct), 'rule': 'distinct = (program, ordering)',
